@@ -9,7 +9,7 @@ from models import model, Some, NONE, Ok, Err, deref, as_list
 from natives_fs import PStr, text_of
 
 REPL = ["{}", "X", "%%"]
-INIT = ["a{}b", "{}{}", "plain", "X", "", "{", "-{}"]
+INIT = ["a{}b", "{}{}", "plain", "X", "", "{", "-{}", "{{}}", "XXX%%%"]      # the last two: an occurrence of R right after R's own first byte
 LINES = ["l 1", "{}", "", "X", "a'b", "t \t"]          # the last one ends in blanks (only leading blanks are excluded by the property)
 
 
@@ -89,6 +89,19 @@ def explore_execute(funcs, index, enums):
                "<ExitStatus as ExitStatusExt>::signal": lambda m, a: (models.NONE() if deref(a[0]).fields[0] else Some(sig)),
                "Error::kind": lambda m, a: Enum("ErrorKind", deref(a[0]).fields[0], []),
                "<ErrorKind as PartialEq>::eq": lambda m, a: _vname(deref(a[0])) == _vname(deref(a[1]))}
+    # strings as bytes, for code that substitutes on the raw bytes instead of going through str::replace (std's documented behaviour on concrete text)
+    def _bytes_of(m, v):
+        return list(text_of(m, v).encode("utf-8", errors="surrogateescape"))
+    def _extend(m, a):
+        items, x, y = as_list(a[1])
+        deref(a[0]).items.extend(items[x:y])
+        return UNIT
+    natives.update({
+        "str::as_bytes": lambda m, a: SliceRef(_bytes_of(m, a[0])), "<OsStr as OsStrExt>::as_bytes": lambda m, a: SliceRef(_bytes_of(m, a[0])),
+        "OsStr::len": lambda m, a: len(_bytes_of(m, a[0])), "Vec::with_capacity": lambda m, a: VecObj(), "Vec::extend_from_slice": _extend,
+        "<OsString as OsStringExt>::from_vec": lambda m, a: PStr(bytes(deref(a[0]).items).decode("utf-8", errors="surrogateescape")),
+        "OsStr::to_os_string": lambda m, a: PStr(text_of(m, a[0])),
+    })
     m = Machine(funcs, index, enums, models, natives=natives)
     m.enums.setdefault("ErrorKind", ["NotFound", "PermissionDenied", "Other"])
     m.base_constraints = [r_i >= 0, r_i < len(REPL), a_i >= 0, a_i < len(INIT), b_i >= 0, b_i < len(INIT), l_i >= 0, l_i < len(LINES),
@@ -139,7 +152,14 @@ def explore_execute(funcs, index, enums):
             ps.add(z3.Not(claim))
             if ps.check() == z3.sat:
                 bad.append(what + " (witness %s)" % ps.model())
-        kind = (r.variant, r.fields[0].variant if isinstance(r.fields[0], Enum) else None)
+        if isinstance(r, Enum) and r.ty == "Result":
+            kind = (r.variant, r.fields[0].variant if r.fields and isinstance(r.fields[0], Enum) else None)
+        elif isinstance(r, Enum) and r.variant in ("Success", "Failure"):
+            kind = ("Ok", r.variant)                        # an interface that returns the result without a Result around it
+        elif isinstance(r, Enum) and r.fields and isinstance(r.fields[0], Enum):
+            kind = ("Err", r.fields[0].variant); r = Err(r.fields[0])      # ... and carries the fatal outcome inside it
+        else:
+            raise Unsupported("execute returned %r" % (r,))
         sp = state.get("spawn")
         if sp == 1:
             if kind != ("Err", "NotFound"): bad.append("missing command classified %r" % (kind,))
